@@ -7,7 +7,7 @@ use std::collections::BTreeMap;
 use serde_json::{json, Map, Value};
 
 use crate::expr::{generate_expr_with, GenExprOpts};
-use crate::pfx::{Family, Pfx, Rng};
+use crate::pfx::{mask, Family, Pfx, Rng};
 
 /// The route / route6 objects originated by one AS, as `(network address, length)`.
 #[derive(Clone, Debug, Default, PartialEq, Eq)]
@@ -75,11 +75,26 @@ pub struct GenOpts {
     pub size: Size,
     /// Put AS-number members into route-sets (IRRd >= 4.2 expands them to the originated routes).
     pub rs_as_members: bool,
+    /// Cap on the length of every prefix in the database (routes, route-set members, literals in
+    /// filter-sets). `None` = realistic lengths (v4 up to /24 and /32, v6 up to /64 and /128).
+    ///
+    /// Why this exists: `generic-ip` 0.1.1 needs time and memory exponential in the prefix length
+    /// to complement a set (`NOT {10.0.0.0/24}`: 17 s / 1.5 GB, `NOT {10.0.0.1/32}`: > 4 GB), so
+    /// `NOT` can only be exercised against the real evaluator on short prefixes. Filter-sets
+    /// contain `NOT` only when the cap is `<= 16`.
+    pub max_prefix_len: Option<u8>,
 }
 
-/// Generate a database with default options (no AS members in route-sets).
+impl GenOpts {
+    pub fn new(size: Size) -> GenOpts {
+        GenOpts { size, rs_as_members: false, max_prefix_len: None }
+    }
+}
+
+/// Generate a database with default options (no AS members in route-sets, realistic prefix
+/// lengths, no `NOT` inside filter-sets).
 pub fn generate(seed: u64, size: Size) -> Db {
-    generate_with(seed, GenOpts { size, rs_as_members: false })
+    generate_with(seed, GenOpts::new(size))
 }
 
 const WORDS: &[&str] = &["FOO", "BAR", "BAZ", "QUX", "CUST", "PEERS", "TRANSIT", "EDGE", "CORE", "IX", "LAB_1", "NET-X"];
@@ -94,12 +109,19 @@ pub fn generate_with(seed: u64, opts: GenOpts) -> Db {
     let mut db = Db::default();
 
     // ---- ASes and their routes -------------------------------------------------------------
-    // A few address blocks so that prefixes of different ASes overlap often.
-    let blocks4: Vec<u128> = (0..r.range(2, 3)).map(|_| ((r.range(1, 223) as u128) << 24) | ((r.below(256) as u128) << 16)).collect();
-    let blocks6: Vec<u128> = (0..r.range(2, 3)).map(|_| (0x2001_0db8u128 << 96) | ((r.below(0x10000) as u128) << 80)).collect();
+    // A few address blocks per family so that prefixes of different ASes overlap often.
+    let nblk = r.range(2, 3);
+    let (mut f4, mut f6) = match opts.max_prefix_len {
+        None => (
+            FamGen { fam: Family::V4, blocks: (0..nblk).map(|_| (r.range(1, 223) as u128) << 24 | (r.below(256) as u128) << 16).collect(), blk_len: 16, lo: 16, hi: 24, cap: 32, pool: vec![] },
+            FamGen { fam: Family::V6, blocks: (0..nblk).map(|_| (0x2001_0db8u128 << 96) | ((r.below(0x10000) as u128) << 80)).collect(), blk_len: 48, lo: 32, hi: 64, cap: 128, pool: vec![] },
+        ),
+        Some(cap) => (
+            FamGen { fam: Family::V4, blocks: (0..nblk).map(|_| (r.range(1, 13) as u128) << 28).collect(), blk_len: 4, lo: 5.min(cap), hi: cap, cap, pool: vec![] },
+            FamGen { fam: Family::V6, blocks: (0..nblk).map(|_| (r.range(2, 3) as u128) << 124).collect(), blk_len: 4, lo: 5.min(cap), hi: cap, cap, pool: vec![] },
+        ),
+    };
     let kind_off = r.below(4);
-    let mut pool4: Vec<(u128, u8)> = vec![];
-    let mut pool6: Vec<(u128, u8)> = vec![];
     let mut asns: Vec<u32> = vec![];
     for i in 0..n_as {
         let asn = if r.chance(1, 8) { 4_200_000_000 + i as u32 } else { 65000 + i as u32 };
@@ -109,21 +131,21 @@ pub fn generate_with(seed: u64, opts: GenOpts) -> Db {
         let mut routes = AsRoutes::default();
         if kind == 0 || kind == 1 {
             for _ in 0..r.range(1, max_routes) {
-                let p = gen_prefix(&mut r, Family::V4, &blocks4, &pool4);
+                let p = f4.gen(&mut r);
                 let e = (p.addr as u32, p.len);
                 if !routes.v4.contains(&e) {
                     routes.v4.push(e);
-                    pool4.push((p.addr, p.len));
+                    f4.pool.push(p);
                 }
             }
         }
         if kind == 0 || kind == 2 {
             for _ in 0..r.range(1, max_routes) {
-                let p = gen_prefix(&mut r, Family::V6, &blocks6, &pool6);
+                let p = f6.gen(&mut r);
                 let e = (p.addr, p.len);
                 if !routes.v6.contains(&e) {
                     routes.v6.push(e);
-                    pool6.push(e);
+                    f6.pool.push(p);
                 }
             }
         }
@@ -192,10 +214,10 @@ pub fn generate_with(seed: u64, opts: GenOpts) -> Db {
     for i in 0..n {
         for _ in 0..r.range(0, 4) {
             if r.chance(1, 2) {
-                let p = gen_prefix(&mut r, Family::V4, &blocks4, &pool4);
+                let p = f4.gen(&mut r);
                 rsets[i].push(RouteSetMember::Prefix4(p.addr as u32, p.len));
             } else {
-                let p = gen_prefix(&mut r, Family::V6, &blocks6, &pool6);
+                let p = f6.gen(&mut r);
                 rsets[i].push(RouteSetMember::Prefix6(p.addr, p.len));
             }
         }
@@ -221,50 +243,62 @@ pub fn generate_with(seed: u64, opts: GenOpts) -> Db {
         let name = if r.chance(1, 5) { format!("AS{}:{}", r.pick(&asns), w) } else { w };
         // Avoid as-sets whose expansion is empty: IRRd answers `D` for them and the evaluator under
         // test then aborts, which would make every expression using this filter-set uninteresting.
-        let mut e = generate_expr_with(r.next_u64(), &db, &GenExprOpts { depth: 2, ..GenExprOpts::default() });
+        let fo = GenExprOpts { depth: 2, allow_not: opts.max_prefix_len.is_some_and(|m| m <= 16), max_prefix_len: opts.max_prefix_len, ..GenExprOpts::default() };
+        let mut e = generate_expr_with(r.next_u64(), &db, &fo);
         for _ in 0..20 {
             let hollow = |s: &String| crate::expr::expand_as_set(&db, s).map_or(true, |x| x.is_empty());
             if !crate::expr::referenced_names(&e, &db).as_sets.iter().any(hollow) {
                 break;
             }
-            e = generate_expr_with(r.next_u64(), &db, &GenExprOpts { depth: 2, ..GenExprOpts::default() });
+            e = generate_expr_with(r.next_u64(), &db, &fo);
         }
         db.filter_sets.insert(name, e.to_rpsl());
     }
     db
 }
 
-/// One prefix: fresh inside a block, or derived from an already used prefix (duplicate,
-/// more-specific, sibling, parent) so that overlaps and aggregatable neighbours are common.
-fn gen_prefix(r: &mut Rng, fam: Family, blocks: &[u128], pool: &[(u128, u8)]) -> Pfx {
-    let bits = fam.bits();
-    let (lo, hi, blk_len) = if fam == Family::V4 { (16u64, 24u64, 16u8) } else { (32, 64, 48) };
-    let fresh = |r: &mut Rng| {
-        let b = *r.pick(blocks);
-        let len = r.range(lo.max(blk_len as u64), hi) as u8;
-        let rnd = r.next_u128() & !crate::pfx::mask(fam, blk_len) & crate::pfx::mask(fam, bits);
-        Pfx::new(fam, b | rnd, len)
-    };
-    if pool.is_empty() {
-        return fresh(r);
-    }
-    let &(a, l) = r.pick(pool);
-    let base = Pfx::new(fam, a, l);
-    match r.below(20) {
-        0..=7 => fresh(r),
-        8..=11 => base, // duplicate across ASes
-        12..=15 => {
-            let len = (l as u64 + r.range(1, 4)).min(bits as u64) as u8; // more specific
-            Pfx::new(fam, a | (r.next_u128() & !crate::pfx::mask(fam, l) & crate::pfx::mask(fam, bits)), len)
+/// Per-family prefix source.
+struct FamGen {
+    fam: Family,
+    blocks: Vec<u128>,
+    blk_len: u8,
+    /// fresh prefixes get a length in `lo..=hi`; nothing is ever longer than `cap`
+    lo: u8,
+    hi: u8,
+    cap: u8,
+    pool: Vec<Pfx>,
+}
+
+impl FamGen {
+    /// One prefix: fresh inside a block, or derived from an already used prefix (duplicate,
+    /// more-specific, sibling, parent) so that overlaps and aggregatable neighbours are common.
+    fn gen(&self, r: &mut Rng) -> Pfx {
+        let (fam, bits) = (self.fam, self.fam.bits());
+        let fresh = |r: &mut Rng| {
+            let len = r.range(self.lo.max(self.blk_len) as u64, self.hi as u64) as u8;
+            Pfx::new(fam, *r.pick(&self.blocks) | (r.next_u128() & !mask(fam, self.blk_len) & mask(fam, bits)), len)
+        };
+        if self.pool.is_empty() {
+            return fresh(r);
         }
-        16 | 17 => base.sibling().unwrap_or(base),
-        18 => base.parent().unwrap_or(base),
-        _ => match r.below(4) {
-            0 => Pfx::new(fam, a, bits),                                      // host route
-            1 => base.ancestor(if fam == Family::V4 { 8 } else { 19 }),       // very short
-            2 => Pfx::new(fam, 0, 0),                                         // default route
-            _ => fresh(r),
-        },
+        let base = *r.pick(&self.pool);
+        let p = match r.below(20) {
+            0..=7 => fresh(r),
+            8..=11 => base, // duplicate across ASes
+            12..=15 => {
+                let len = (base.len as u64 + r.range(1, 4)).min(bits as u64) as u8; // more specific
+                Pfx::new(fam, base.addr | (r.next_u128() & !mask(fam, base.len) & mask(fam, bits)), len)
+            }
+            16 | 17 => base.sibling().unwrap_or(base),
+            18 => base.parent().unwrap_or(base),
+            _ => match r.below(4) {
+                0 => Pfx::new(fam, base.addr, bits),                         // host route
+                1 => base.ancestor(if fam == Family::V4 { 8 } else { 19 }), // very short
+                2 => Pfx::new(fam, 0, 0),                                    // default route
+                _ => fresh(r),
+            },
+        };
+        p.ancestor(self.cap)
     }
 }
 
